@@ -180,8 +180,10 @@ func init() {
 			{Entry: "HarnessC19Relations", Args: []int64{1, 1}, Bound: "all pairs of value trees of depth <= 1, symbolic scalar bytes, symbolic map iteration order", Require: []string{"compared"}},
 			{Entry: "HarnessC19Relations", Args: []int64{2, 1}, Bound: "value trees of depth <= 2 against depth <= 1", Require: []string{"compared"}},
 			{Entry: "HarnessC19Rule", Args: []int64{1, 1}, Bound: "RuleMatrix on rows/exclude/include built from all pairs of depth <= 1 trees", Require: []string{"rows", "exclude-reported", "exclude-silent"}},
+			{Entry: "HarnessC19Rows3", Args: []int64{1, 1}, Bound: "rows [x,y,y], [y,x,y], [y,y,x] for all pairs of depth <= 1 trees: same duplicate count in every arrangement", Require: []string{"rows"}},
 		}
 		p.Thorough = []HRun{
+			{Entry: "HarnessC19Rows3", Args: []int64{2, 1}, Bound: "rows of three for depth <= 2 against depth <= 1 trees", Require: []string{"rows"}},
 			{Entry: "HarnessC19Relations", Args: []int64{2, 2}, Bound: "all pairs of value trees of depth <= 2 (about 5*10^5 shape pairs)", Require: []string{"compared"}},
 			{Entry: "HarnessC19Rule", Args: []int64{2, 1}, Bound: "RuleMatrix on depth <= 2 against depth <= 1 trees", Require: []string{"rows", "exclude-reported", "exclude-silent"}},
 			{Entry: "HarnessC19Rule", Args: []int64{1, 2}, Bound: "RuleMatrix on depth <= 1 against depth <= 2 trees", Require: []string{"rows", "exclude-reported", "exclude-silent"}},
